@@ -176,6 +176,9 @@ void tq_push(TQ *q, QI *fn) {
 #ifdef CV_HAS_tq_empty
 cv_i1 tq_empty(TQ *q) { tq_guard(q); return (tq_is_pool(q) ? tm.q_len : tm.lq_len) == 0 ? 1 : 0; }
 #endif
+#ifdef CV_HAS_tq_size
+cv_i64 tq_size(TQ *q) { tq_guard(q); return tq_is_pool(q) ? tm.q_len : tm.lq_len; }
+#endif
 #ifdef CV_HAS_tq_front
 QI *tq_front(TQ *q) {
   tq_guard(q); __CPROVER_assert(tq_is_pool(q), "model: front on the pool queue");
